@@ -8,7 +8,7 @@ import z3
 from .values import *      # noqa
 from .symex import Unsupported, PyRaise, Frame
 from .interp import VFieldCell, VCallIter
-from .lib import (S, SeqS, I, B, ufun, conc, is_conc, lift, cp_lit, sort_tag, Lib)
+from .lib import (S, SeqS, I, B, ufun, conc, is_conc, lift, cp_lit, sort_tag, Lib, VGenExpr)
 
 
 def F(name, bind=True):
@@ -35,15 +35,19 @@ def cpy(it, fn, args, kwargs=None):
 def rstrip_char(it, s, ch):
     """s.rstrip(ch) for a single character: unique r with s = r ++ t, t in ch*, r not ending in ch"""
     ctx = it.ctx
-    st = z3.simplify(s)
+    st = simp(s)
     if z3.is_string_value(st):
         return z3.StringVal(conc(VStr(st)).rstrip(ch))
     key = ('rstrip', st.get_id(), ch)
     memo = ctx.ghost.setdefault('memo', {})
     if key in memo:
         return memo[key]
-    r = ctx.fresh_const('rstrip_r', S)
-    t = ctx.fresh_const('rstrip_t', S)
+    # r and t are *functions* of s, so equal arguments give equal results by congruence;
+    # the defining axioms are instantiated per argument term
+    fr_ = ufun('py_rstrip_r_%d' % ord(ch), S, S)
+    ft_ = ufun('py_rstrip_t_%d' % ord(ch), S, S)
+    r = fr_(s)
+    t = ft_(s)
     ctx.assume(s == z3.Concat(r, t))
     ctx.assume(z3.InRe(t, z3.Star(z3.Re(ch))))
     ctx.assume(z3.Not(z3.SuffixOf(z3.StringVal(ch), r)))
@@ -203,7 +207,7 @@ def install(lib):
         if not it.ctx.branch(z3.Length(v.t) == 1, 'ord-len1'):
             it.raise_('TypeError', line=n.lineno)
         if v.t.sort() == z3.SeqSort(I):
-            return VInt(z3.simplify(v.t[0]))
+            return VInt(simp(v.t[0]))
         return VInt(z3.StrToCode(v.t))
     b['ord'] = _ord
 
@@ -368,9 +372,9 @@ def install(lib):
                 it.raise_('StopIteration', line=n.lineno)
             seq = v.seq
             if it.ctx.branch(v.pos < z3.Length(seq.t), 'next-more'):
-                el = seq.ety.wrap(z3.simplify(seq.t[v.pos]))
+                el = seq.ety.wrap(simp(seq.t[v.pos]))
                 lib.assume_element(it, seq, el)
-                v.pos = z3.simplify(v.pos + 1)
+                v.pos = simp(v.pos + 1)
                 return el
             it.raise_('StopIteration', line=n.lineno)
         raise Unsupported('next() of %r' % (v,), n)
@@ -398,6 +402,11 @@ def install(lib):
     def _any(it, a, k, n):
         v = it.ctx.force(a[0])
         items = lib.concrete_items(it, v)
+        if isinstance(v, VGenExpr):
+            x = z3.Const('bv!x', v.seq.ety.sort())
+            conds, val = v.predicate(it, v.seq.ety.wrap(x))
+            body = z3.And(z3.Contains(v.seq.t, z3.Unit(x)), *(conds + [it.truth(val)]))
+            return VBool(z3.Exists([x], body))
         if items is None:
             raise Unsupported('any() over symbolic sequence', n)
         for x in items:
@@ -734,7 +743,7 @@ def install(lib):
             nl = z3.Length(c.t)
             if not it.ctx.branch(nl > 0, 'pop-nonempty'):
                 it.raise_('IndexError', line=n.lineno)
-            el = c.ety.wrap(z3.simplify(c.t[nl - 1]))
+            el = c.ety.wrap(simp(c.t[nl - 1]))
             it.set_content(a[0], VSeq(z3.SubSeq(c.t, 0, nl - 1), c.ety, c.kind))
             return el
         raise Unsupported('pop on %r' % (c,), n)
@@ -769,10 +778,10 @@ def install(lib):
         except EncodeError:
             return default
         o = lib._map_opt(c)
-        cell = z3.simplify(z3.Select(c.t, kt))
+        cell = simp(z3.Select(c.t, kt))
         if z3.is_app(cell) and cell.decl().name() == 'none':
             return default
-        val = c.vty.wrap(z3.simplify(o.val(cell)))
+        val = c.vty.wrap(simp(o.val(cell)))
         if isinstance(val, VCell):
             raise Unsupported('dict of mutable containers', n)
         return VUnion([(o.is_none(cell), default), (z3.Not(o.is_none(cell)), val)])
@@ -794,12 +803,12 @@ def install(lib):
                 return a[2]
             it.raise_('KeyError', line=n.lineno)
         o = lib._map_opt(c)
-        cell = z3.simplify(z3.Select(c.t, kt))
+        cell = simp(z3.Select(c.t, kt))
         if it.ctx.branch(o.is_none(cell), 'pop-missing'):
             if has_default:
                 return a[2]
             it.raise_('KeyError', line=n.lineno)
-        val = c.vty.wrap(z3.simplify(o.val(cell)))
+        val = c.vty.wrap(simp(o.val(cell)))
         inv = c.vty.invariant(o.val(cell))
         if inv is not None:
             it.ctx.assume(inv)
@@ -913,7 +922,7 @@ def install(lib):
                   z3.If(z3.Or(a.t == z3.StringVal(''), z3.SuffixOf(z3.StringVal('/'), a.t)),
                         z3.Concat(a.t, bb.t),
                         z3.Concat(a.t, z3.StringVal('/'), bb.t)))
-        return VStr(z3.simplify(r))
+        return VStr(simp(r))
 
     @F('os.path.join')
     def _join_path(it, a, k, n):
@@ -950,7 +959,7 @@ def install(lib):
             return r
         p = it.ctx.force(a[0])
         h, t = _split_head_tail(it, p)
-        return VStr(z3.simplify(h))
+        return VStr(simp(h))
     op['dirname'] = _dirname
 
     @F('os.path.basename')
@@ -960,7 +969,7 @@ def install(lib):
             return r
         p = it.ctx.force(a[0])
         i = z3.LastIndexOf(p.t, z3.StringVal('/')) + 1
-        return VStr(z3.simplify(z3.SubString(p.t, i, z3.Length(p.t) - i)))
+        return VStr(simp(z3.SubString(p.t, i, z3.Length(p.t) - i)))
     op['basename'] = _basename
 
     @F('os.path.relpath')
@@ -998,7 +1007,7 @@ def install(lib):
         has_ext = z3.And(dot > sep, z3.Not(z3.InRe(stem, z3.Star(z3.Re('.')))))
         root = z3.If(has_ext, z3.SubString(p.t, 0, dot), p.t)
         ext = z3.If(has_ext, z3.SubString(p.t, dot, z3.Length(p.t) - dot), z3.StringVal(''))
-        return VTuple([VStr(z3.simplify(root)), VStr(z3.simplify(ext))])
+        return VTuple([VStr(simp(root)), VStr(simp(ext))])
     op['splitext'] = _splitext
 
     # ------------------------------------------------------------ stat / errno
@@ -1097,10 +1106,10 @@ def _iteration_source(self, it, v, node):
 
         def nxt(itp, i):
             if itp.ctx.branch(i < z3.Length(ks.t), 'for-more'):
-                kt = z3.simplify(ks.t[i])
+                kt = simp(ks.t[i])
                 kv = m.kty.wrap(kt)
                 itp.ctx.assume(z3.Not(o.is_none(z3.Select(m.t, kt))))
-                vv = m.vty.wrap(z3.simplify(o.val(z3.Select(m.t, kt))))
+                vv = m.vty.wrap(simp(o.val(z3.Select(m.t, kt))))
                 if isinstance(vv, VRef):
                     itp.ctx.assume_input_object(vv)
                 return vv if v.values_only else VTuple([kv, vv])
@@ -1115,7 +1124,7 @@ def _iteration_source(self, it, v, node):
 
         def nxt(itp, i):
             if itp.ctx.branch(i < length, 'for-more'):
-                return VTuple([s.ety.wrap(z3.simplify(s.t[i])) for s in seqs])
+                return VTuple([s.ety.wrap(simp(s.t[i])) for s in seqs])
             return None
         return IterSource(seqs[0].t, length, nxt)
     return _orig_iteration_source(self, it, v, node)
